@@ -12,6 +12,8 @@ input that reads successfully as to='pdtable', through parse_blocks, read_csv (S
                    equality with *exact* leaf types (type(x) is float, never a numpy scalar), NaN-free, and the
                    same column order;
   non_table        metadata, directive, template and blank blocks are equal in all three forms;
+  own_form         the readers are generators: with the three readers of one input alive at the same time (consumed
+                   in lock-step, or one started after k blocks of another) each still delivers its own form;
   unknown_form     an unknown `to` raises ValueError at the first next(), before the row iterator / the text
                    stream is touched (recording iterator / recording stream).
 Correspondence: the real reader in each form vs Lean `parseBlocks` (driver op "parse_blocks_json", which prints
@@ -188,6 +190,75 @@ def read_blocks(api, src, to, filt):
         return "exc", type(e).__name__
 
 
+def make_reader(api, src, to, filt):
+    """the reader generator, not yet started"""
+    from pdtable.io.parsers.blocks import parse_blocks
+    from pdtable import read_csv, read_excel
+    if api == "parse_blocks":
+        return parse_blocks(iter([list(r) for r in src]), to=to, filter=filt)
+    if api == "read_csv":
+        return read_csv(io.StringIO(src), sep=SEP, to=to, filter=filt)
+    return read_excel(src, to=to, filter=filt)
+
+
+def read_forms(api, src, filt, plan):
+    """the three forms of one input -> {form: ("ok", blocks) | ("exc", class name)}.
+    plan = {"mode": "sequential"}                     each reader created and read to completion, one after the other
+         | {"mode": "lockstep", "order": [forms]}      all three readers alive: one block from each in turn
+         | {"mode": "staggered", "order": [forms], "k": [k1, k2]}
+                                                       k1 blocks of the first reader, then the second is started and
+                                                       read for k2 blocks, then the third is started; then round-robin
+    A reader must deliver its own form whatever other readers are alive."""
+    if plan["mode"] == "sequential":
+        return {f: read_blocks(api, src, f, filt) for f in FORMS}
+    order = plan["order"]
+    res = {f: ["ok", []] for f in FORMS}
+    gens, done = {}, set()
+
+    def pull(f):
+        if f in done:
+            return
+        try:
+            with warnings.catch_warnings():
+                warnings.simplefilter("ignore")
+                if f not in gens:
+                    gens[f] = make_reader(api, src, f, filt)
+                bt, v = next(gens[f])
+            res[f][1].append((bt.name, v))
+        except StopIteration:
+            done.add(f)
+        except Exception as e:  # noqa: BLE001
+            res[f] = ["exc", type(e).__name__]
+            done.add(f)
+
+    try:
+        if plan["mode"] == "staggered":
+            for f, k in zip(order, plan["k"]):
+                for _ in range(k):
+                    pull(f)
+        while len(done) < len(order):
+            for f in order:
+                pull(f)
+    finally:
+        for g in gens.values():
+            try:
+                g.close()
+            except Exception:  # noqa: BLE001
+                pass
+    return {f: tuple(res[f]) for f in FORMS}
+
+
+def gen_plan(rng):
+    r = rng.random()
+    order = list(FORMS)
+    rng.shuffle(order)
+    if r < 0.3:
+        return {"mode": "sequential"}
+    if r < 0.7:
+        return {"mode": "lockstep", "order": order}
+    return {"mode": "staggered", "order": order, "k": [rng.randint(1, 3), rng.randint(0, 2)]}
+
+
 def canon_val(v):
     from pdtable import Table
     if isinstance(v, dict) and not hasattr(v, "origin") and set(v) >= {"name", "columns", "destinations"}:
@@ -263,6 +334,15 @@ def oracle(out, case, api, seen_rows, tables, filt_py, results):
                          "equal blocks", key="non_table:" + ty)
                 return
             continue
+        # every reader delivers the form it was asked for
+        from pdtable import Table
+        kinds = {"pdtable": isinstance(vp, Table), "jsondata": type(vj) is dict,
+                 "cellgrid": isinstance(vc, (list, tuple)) and not isinstance(vc, Table)}
+        if not all(kinds.values()):
+            got = {"pdtable": type(vp).__name__, "jsondata": type(vj).__name__, "cellgrid": type(vc).__name__}
+            out.fail(f"{api}: a reader delivered a table in another form than the one it was asked for", case, got,
+                     {"pdtable": "Table", "jsondata": "dict", "cellgrid": "list"}, key="wrong_form")
+            return
         # cellgrid == raw rows of the block
         if k >= len(expected):
             out.fail(f"{api}: more table blocks than tables in the input", case, len(P), len(expected), key="table_count")
@@ -374,7 +454,8 @@ def run(tier, seed, model_ok, translator, search=False):
     out.rule = ("multi-block inputs: well-formed tables of every column kind (text and native cells, markers, missing values, "
                 "both orientations, zero rows, padding, comments after the names) interleaved with metadata, directives, "
                 "template rows, comments, late `key:` rows and blank lines with payload, with and without blank separators, "
-                "25 % with a read filter; each through parse_blocks (text / native cells), read_csv (StringIO) and read_excel "
+                "25 % with a read filter; the three readers of a case are consumed one after the other (30 %), in lock-step (40 %) "
+                "or staggered (a reader started after k blocks of another, 30 %); each through parse_blocks (text / native cells), read_csv (StringIO) and read_excel "
                 "(openpyxl workbook in a scratch dir) x {pdtable, jsondata, cellgrid}; plus unknown output forms with a "
                 "recording iterator / stream. Non-trivial: at least one table with a column and a row; distinct by rows.")
     rng = make_rng(seed, "C07")
@@ -415,7 +496,10 @@ def run(tier, seed, model_ok, translator, search=False):
                 src = rows
             case = {"seed": seed, "index": i, "api": api, "rows": grid_to_json(seen), "filter": filt_spec,
                     "tables": [[s, k, nm] for s, k, nm in tables]}
-            results = {f: read_blocks(api, src, f, filt_py) for f in FORMS}
+            plan = gen_plan(rng)
+            case["plan"] = plan
+            results = read_forms(api, src, filt_py, plan)
+            out.count("readers:" + plan["mode"])
             nontrivial = any(k.startswith("col:") for k in kinds) and any(k.startswith("rows:") and k != "rows:0" for k in kinds)
             c08.add_case(out, case, [api, case["rows"], filt_spec], nontrivial)
             out.count("api:" + api)
@@ -506,7 +590,7 @@ def replay(rep):
                 wb.close()
             else:
                 src = rows
-            results = {f: read_blocks(api, src, f, filt_py) for f in FORMS}
+            results = read_forms(api, src, filt_py, inp.get("plan") or {"mode": "sequential"})
             if results["pdtable"][0] == "ok":
                 oracle(out, dict(inp), api, rows, tables, filt_py, results)
         finally:
